@@ -160,10 +160,18 @@ Definition conts (es : list elem) (s : list label) (p : nat) (e : elem) : list (
                      end) [OTrue; OFalse].
 
 (* where a head that stopped at p is advanced from later (`_advance_head_front`: position += 1;
-   forked heads start behind their label with a copy of the stack) *)
+   forked heads start behind their label with a copy of the stack; a head whose match FAILED or
+   whose action lost the conflict resolution is moved to its innermost catch label first) *)
+Definition catch_resume (es : list elem) (s : list label) : list (nat * list label) :=
+  match s with
+  | [] => []
+  | l :: _ => match label_pos es l with Some i => [(S i, s)] | None => [] end
+  end.
+
 Definition resumes (es : list elem) (s : list label) (p : nat) (e : elem) : list (nat * list label) :=
   match e with
-  | EBlock _ | EWaitInt _ | EWaitHeads => [(S p, s)]
+  | EBlock BMerge | EWaitHeads => [(S p, s)]
+  | EBlock _ | EWaitInt _ => (S p, s) :: catch_resume es s
   | EFork ls => flat_map (fun l => match label_pos es l with Some i => [(S i, s)] | None => [] end) ls
   | _ => []
   end.
